@@ -12,7 +12,8 @@ THEOREMS = ["c18_missing_constructor", "c18_parameterised_constructor", "c18_no_
             "c18_several_migrate", "c18_interface_generics", "c18_interface_without_error_type", "c18_instantiate_inside_interface",
             "c18_migrate_inside_interface", "c18_bad_attribute_argument_is_reported", "c18_method_attribute_error_rejects_the_contract",
             "c18_item_attribute_error_rejects_the_contract", "c18_unknown_msg_attr_kind", "c18_unknown_override_kind",
-            "c18_unknown_feature", "c18_reply_table_accepted_iff", "c18_accepted_tables_are_compatible"]
+            "c18_unknown_feature", "c18_reply_table_accepted_iff", "c18_accepted_tables_are_compatible",
+            "c18_handler_names_sharing_a_constant_are_rejected"]
 
 CONTRACT_EDITS = ["no_inst", "two_inst", "two_migrate", "no_new", "new_params", "bad_msg_kind", "bad_msg_attr_kind", "bad_override",
                   "bad_feature", "attr_on_inst", "sv_on_self", "sv_on_ctx", "double_msg", "double_error", "bad_reply_on"]
